@@ -47,6 +47,9 @@ def _n(t, env, wide):
         if op in ("Add", "AddWithOverflow", "AddUnchecked"):
             return ("add", a, b) if op == "Add" else ("addov", a, b)
         if op == "Rem":
+            if b[:2] == ("int", 256) and a[0] == "add" and _is_byte_nf(a[1]) and _is_byte_nf(a[2]):
+                # two bytes added in a wider type and reduced modulo 256: the wrapping byte sum
+                return wadd(a[1], a[2])
             return ("rem", a, b)
         if op == "BitOr":
             return ("or", frozenset([a, b]))
